@@ -163,7 +163,7 @@ def run(ctx):
                 # backend must not leave the method on its own
                 if p.kind == 'raise' and p.outcome[1] == 'IndexError':
                     last = [o for o in p.ops if o.kind in ('raise', 'raise_at')][-1]
-                    own = last.kind == 'raise' and last.depth == 0
+                    own = last.kind == 'raise'          # an explicit raise statement of the method or of a private helper of it
                     ctx.ob('T14.empty', '%s.%s' % (cls, name), 'IndexError from culling / the backend is caught and turned into the default '
                            '(or the method\'s own IndexError)', own, loc=loc(f, last.node), path=p.describe() if not own else None)
                 if name == 'pop' and p.kind == 'return':
@@ -234,8 +234,12 @@ def run(ctx):
             continue
         pq_alias = {x.targets[0].id for x in ast.walk(m.node) if isinstance(x, ast.Assign) and txt(x.value) == 'self._pq'
                     and isinstance(x.targets[0], ast.Name)}
+        for x in ast.walk(m.node):      # pq, pop_entry = self._pq, self._pop_entry
+            if isinstance(x, ast.Assign) and isinstance(x.targets[0], ast.Tuple) and isinstance(x.value, ast.Tuple) and \
+                    len(x.targets[0].elts) == len(x.value.elts):
+                pq_alias |= {t.id for t, v in zip(x.targets[0].elts, x.value.elts) if isinstance(t, ast.Name) and txt(v) == 'self._pq'}
         for n in ast.walk(m.node):
-            if isinstance(n, ast.Assign) and isinstance(n.targets[0], ast.Tuple) and (
+            if isinstance(n, ast.Assign) and isinstance(n.targets[0], ast.Tuple) and not isinstance(n.value, ast.Tuple) and (
                     '_pq' in txt(n.value) or '_pop_entry' in txt(n.value) or
                     (isinstance(n.value, ast.Subscript) and txt(n.value.value) in pq_alias)):
                 t = n.targets[0]
@@ -311,7 +315,12 @@ def barrel_positions(ctx, prog):
         fn = ci.own(name)
         if not isinstance(fn, FuncInfo):
             continue
-        w, paths = paths_of(prog, fn, recv=ci)
+        class BL(Quiet):
+            def inline(self, walker, op, callee, st):
+                rv = op.recv_val
+                return isinstance(rv, ast.Name) and rv.id == 'self' and is_private(callee.name) and \
+                    callee.name not in ('_translate_index', '_balance_list')
+        w, paths = paths_of(prog, fn, recv=ci, model=BL(prog))
         for p in paths:
             single = any(t in ('len(self.lists) == 1',) and truth for t, truth, o in tests_on(w, p))
             tr = set()
